@@ -43,6 +43,11 @@ def curve(name):
         with repo.quiet():
             if isinstance(name, str) and name in MIXED:
                 _curve_cache[key] = mixed_curve(P, name)
+            elif name == 'Circle2':
+                # a circle of radius 2 as one piece of length 4 pi
+                _curve_cache[key] = P.PiecewiseParametrization(
+                    [0, 4 * np.pi], [lambda x_hat: np.vstack([2 * np.cos(np.asarray(x_hat, dtype=float) / 2),
+                                                              2 * np.sin(np.asarray(x_hat, dtype=float) / 2)])])
             elif name == 'CircleGuarded':
                 # the unit circle as a one-piece closed curve whose callable is only defined on its parameter interval
                 # (like a tabulated arc-length parametrisation): evaluating it elsewhere is an error of the caller
